@@ -72,6 +72,15 @@ pub fn fx() -> Spec {
             d("MEASure:TEMPerature?", &[], R::HStr, false),
             d("TeST:CHan1_x:VALue", &[U16], R::None, false),
             d("TeST:CHan1_x:VALue?", &[], R::Tup(vec![R::Int(U16), R::Bool]), true),
+            // siblings that share a prefix and then diverge at '_', a letter or the end; a mnemonic
+            // longer than the twelve characters IEEE 488.2 allows (the macro accepts it)
+            d("TeST:IN_A", &[I32], R::None, false),
+            d("TeST:IN_B?", &[], R::Int(I32), false),
+            d("TeST:INITiate", &[], R::None, false),
+            d("TeST:INPut", &[Str], R::None, true),
+            d("TeST:INP?", &[], R::Int(U8), false),
+            d("CONFigure:SYNChronization", &[Bool], R::None, false),
+            d("CONFigure:SYNChronization?", &[], R::Bool, false),
         ],
     }
 }
